@@ -27,6 +27,7 @@ import (
 // Trace of one case (see lean/Driver/C15.lean):
 //
 //	stack <base> <letters…|->            base ∈ fs|sql|mix, letters as in verifx.Letter
+//	fixes sql=<0|1> ec=<0|1> tink=<0|1>  which repairs the tree under test carries (probed, see probeFixes)
 //	caps <get> <put> <del>               tx-free capabilities advertised by the top store (0|1)
 //	put <tx|notx> <id> <content> <ok|err>
 //	get <tx|notx> <id> <nf | ok <content> | err <open|read>>
@@ -190,6 +191,11 @@ func c15GenCase(seed uint64, tier string) *c15Case {
 	for _, l := range c.word {
 		hasOutbox = hasOutbox || l.Kind == 'o'
 	}
+	hasEc := false
+	for _, l := range c.word {
+		hasEc = hasEc || l.Kind == 'e'
+	}
+	liveRef := map[int]bool{} // the generator's own bookkeeping of which ids hold a part
 	nops := 6 + r.Intn(18)
 	for i := 0; i < nops; i++ {
 		x := r.Intn(100)
@@ -210,6 +216,19 @@ func c15GenCase(seed uint64, tier string) *c15Case {
 			op.kind = "get"
 		}
 		c.ops = append(c.ops, op)
+		switch op.kind {
+		case "put":
+			liveRef[op.id] = true
+		case "del":
+			delete(liveRef, op.id)
+		case "get":
+			// A read of an absent part through an erasure-coding layer creates an empty part (known
+			// finding). Mostly delete it again right away, so that the remaining history of this id
+			// is judged from a state that agrees with the reference.
+			if hasEc && !liveRef[op.id] && r.Chance(4, 5) {
+				c.ops = append(c.ops, c15Op{kind: "ids"}, c15Op{kind: "del", id: op.id, notx: r.Bool()})
+			}
+		}
 	}
 	// closing round: drain, then read everything back
 	if hasOutbox {
@@ -223,10 +242,45 @@ func c15GenCase(seed uint64, tier string) *c15Case {
 }
 
 type c15Runner struct {
-	env  *verifx.StackEnv
-	out  *verifx.Out
-	ctx  context.Context
-	hung bool // an operation did not return: the stack is wedged, stop the run
+	env   *verifx.StackEnv
+	out   *verifx.Out
+	ctx   context.Context
+	hung  bool   // an operation did not return: the stack is wedged, stop the run
+	fixes string // which of the three repairs the code under test carries (see probeFixes)
+}
+
+// probeFixes finds out, by three discriminating probes on the real code, which of the proposed
+// repairs (fixes/C15-*.patch) the tree under test carries; the driver selects the matching model
+// variant (the models are switchable, see Pithos.PartStore.Fixes). The judge does not depend on it.
+func (rn *c15Runner) probeFixes() {
+	ctx := rn.ctx
+	id := *verifx.Must(partstore.NewRandomPartId())
+	probe := func(base string, word []verifx.Letter, put []byte, doPut bool) (found bool, content []byte, rerr error) {
+		st := rn.env.Build(word, base)
+		defer st.Release()
+		verifx.Check(st.Top.Start(ctx))
+		defer st.Top.Stop(ctx)
+		if doPut {
+			verifx.Check(rn.tx(false, func(ctx context.Context, tx database.Tx) error {
+				return st.Top.PutPart(ctx, tx, id, bytes.NewReader(put))
+			}))
+		}
+		_ = rn.tx(true, func(ctx context.Context, tx database.Tx) error {
+			rc, err := st.Top.GetPart(ctx, tx, id)
+			if err != nil {
+				return nil
+			}
+			found = true
+			content, rerr = io.ReadAll(rc)
+			_ = rc.Close()
+			return nil
+		})
+		return
+	}
+	sqlFound, _, _ := probe("sql", nil, []byte{}, true)
+	ecFound, _, _ := probe("fs", []verifx.Letter{verifx.ParseLetter("e:1:1:1024")}, nil, false)
+	_, _, tinkErr := probe("sql", []verifx.Letter{{Kind: 't'}, {Kind: 't'}}, []byte{1}, true)
+	rn.fixes = fmt.Sprintf("fixes sql=%d ec=%d tink=%d", c15b2i(sqlFound), c15b2i(!ecFound), c15b2i(tinkErr == nil))
 }
 
 // guard runs fn with a watchdog: an operation of the code under test that does not return within
@@ -279,6 +333,7 @@ func (rn *c15Runner) run(k int, seed uint64, c *c15Case) {
 	out.Case(k, seed)
 	defer out.End()
 	out.Line("stack %s %s", c.base, verifx.WordString(c.word))
+	out.Line("%s", rn.fixes)
 	out.Flush()
 	defer func() {
 		if p := recover(); p != nil {
@@ -479,6 +534,10 @@ func c15Directed(tier string) []*c15Case {
 	add("sql", nil, [][]byte{{}}, []c15Op{{kind: "put", id: 0, content: 0}, {kind: "get", id: 0}, {kind: "ids"}}, 1)
 	add("fs", []verifx.Letter{L("e:2:1:1024")}, [][]byte{r.Bytes(10)}, []c15Op{{kind: "get", id: 0}, {kind: "ids"}, {kind: "get", id: 0, notx: true},
 		{kind: "put", id: 0, content: 0}, {kind: "get", id: 0}, {kind: "del", id: 0}, {kind: "get", id: 0}, {kind: "ids"}}, 1)
+	// 2,3: two tink layers over a non-seekable store; a tx-free healing read over outbox shard stores
+	add("sql", []verifx.Letter{L("t"), L("t")}, [][]byte{{7}, {}, r.Bytes(3000)}, std(3), 1)
+	add("fs", []verifx.Letter{L("e:2:1:1024"), L("o")}, [][]byte{r.Bytes(10)}, []c15Op{{kind: "get", id: 0, notx: true}, {kind: "ids"},
+		{kind: "put", id: 0, content: 0}, {kind: "get", id: 0, notx: true}, {kind: "flush"}, {kind: "get", id: 0, notx: true}}, 1)
 	// every single letter over both bases with its boundary sizes ±1, three content kinds
 	letters := []string{"z:2048", "g:2048", "z:65536", "t", "c:5000", "o", "e:1:1:1024", "e:2:1:1024", "e:2:2:1024", "e:3:2:1024"}
 	for _, base := range []string{"fs", "sql"} {
@@ -522,6 +581,7 @@ func runC15(args []string) {
 		defer env.Close()
 	}
 	rn := &c15Runner{env: env, out: out, ctx: context.Background()}
+	rn.probeFixes()
 	k := 0
 	if spec := os.Getenv("C15_STACK"); spec != "" {
 		// debugging aid: C15_STACK="sql|t t" runs the standard history on one stack and exits
